@@ -114,9 +114,11 @@ impl<H: RangeBounds<u32>, V: RangeBounds<u32>> From<(H, V)> for Rect<u32> {
     /// Creates a `Rect` from two ranges specifying the horizontal and
     /// vertical extents of the `Rect` respectively.
     fn from((horiz, vert): (H, V)) -> Self {
+        // Checked, so that e.g. `0..=u32::MAX` doesn't wrap around
+        // to an empty range when overflow checks are disabled
         let resolve = |b, i, e| match b {
-            Included(&x) => Some(x + i),
-            Excluded(&x) => Some(x + e),
+            Included(&x) => Some(u32::checked_add(x, i).expect("bound overflow")),
+            Excluded(&x) => Some(u32::checked_add(x, e).expect("bound overflow")),
             Unbounded => None,
         };
         let left = resolve(horiz.start_bound(), 0, 1);
